@@ -262,6 +262,14 @@ Definition step0 (s : st) (e : ev) : option st :=
   | EAcqM t j =>
       match thr s t, mown s j with
       | IAcqM j' :: rest, None => if Nat.eqb j j' then Some (set_prog (s <| mown := upd (mown s) j (Some t) |>) t rest) else None
+      | IPolSR r :: rest, None =>
+          (* eval_policy reads job.stop_retry (no lock) AFTER delegate_future.cancelled() returned: a cancel() whose X-section set the
+             flag in between is seen after all, and the callback finalises instead of asking the policy *)
+          match jdel (recs s r) with
+          | Some d => if jstop (recs s r) && Nat.eqb j (jf (recs s r))
+                      then Some (set_prog (s <| mown := upd (mown s) j (Some t) |>) t (tl (finalize_prog s r d) ++ rest)) else None
+          | None => None
+          end
       | _, _ => None
       end
   | ERelM t j =>
